@@ -88,7 +88,7 @@ def _node_calls(n, name):
 
 
 @rule('SA-PAIR.offset_cache')
-@props('C17', 'C03')
+@props('C03', 'C02')
 def offset_cache(ctx):
     """any mutation of children -> _recalculate_extents_and_offsets on every path to the return"""
     obs = []
@@ -217,8 +217,22 @@ def unlink_release(ctx):
                 t = norm(node.test)
                 if 'linked_records' in t and ('not ' in t or 'len(' in t):
                     has_empty_test = True
+        par = ctx.parents(fi)
+
+        def in_rollback(node):
+            # inside an exception handler that re-raises: the statement takes back a reference this call added
+            # itself, so the count returns to what it was before the call and cannot newly reach zero
+            cur = node
+            while cur is not None and cur is not fi.node:
+                cur = par.get(id(cur))
+                if isinstance(cur, ast.ExceptHandler) and cur.body and isinstance(cur.body[-1], ast.Raise) and cur.body[-1].exc is None:
+                    return True
+            return False
         for w in rem:
             n += 1
+            if in_rollback(w.stmt):
+                obs.append(Ob('SA-PAIR.unlink_release', '%s|%s' % (fi.qual, norm(w.stmt)[:70]), True, ctx.loc(fi, w.node), 'roll-back inside a handler that re-raises'))
+                continue
             ok = bool(inodes_del) and has_empty_test
             obs.append(Ob('SA-PAIR.unlink_release', '%s|%s' % (fi.qual, norm(w.stmt)[:70]), ok, ctx.loc(fi, w.node),
                           '' if ok else '%s removes references from an inode but never tests for the last reference and releases the inode '
